@@ -130,6 +130,42 @@ ExactFrag(e,p) ==
    /\ SmallDyadic(Val(e,p))
    /\ \A j \in 1..Len(Kids(e)) : ExactFrag(Kids(e)[j], p)
 
+\* ---- "all points at once" for the rational-function fragment (C05, C08): DESIGN.md 2.1
+\* a and b differ by a fraction whose numerator has total degree <= D; a non-zero polynomial of total degree D in k variables
+\* has at most D*|S|^(k-1) zeros on the grid S^k (counting form of Schwartz-Zippel), so MORE agreeing grid points than that
+\* prove a = b at EVERY real point where both are defined.
+RatOps == {"Variable","Constant","Add","Multiply","Minus","Negation","Divide","Reciprocal","NthPower"}
+RECURSIVE RationalFragment(_)
+RationalFragment(e) == /\ e.op \in RatOps
+                       /\ e.op = "Constant" => e.val.k = "q"
+                       /\ \A j \in 1..Len(Kids(e)) : RationalFragment(Kids(e)[j])
+Max2(a,b) == IF a > b THEN a ELSE b
+RECURSIVE ND(_)            \* <<degree bound of the numerator, degree bound of the denominator>>
+ND(e) == CASE e.op = "Variable" -> <<1,0>>
+           [] e.op = "Constant" -> <<0,0>>
+           [] e.op = "Add" -> FoldLeft(LAMBDA acc, c: LET x == ND(c) IN <<Max2(acc[1] + x[2], x[1] + acc[2]), acc[2] + x[2]>>, <<0,0>>, e.args)
+           [] e.op = "Multiply" -> FoldLeft(LAMBDA acc, c: LET x == ND(c) IN <<acc[1] + x[1], acc[2] + x[2]>>, <<0,0>>, e.args)
+           [] e.op = "Minus" -> LET a == ND(e.l) b == ND(e.r) IN <<Max2(a[1] + b[2], b[1] + a[2]), a[2] + b[2]>>
+           [] e.op = "Negation" -> ND(e.a)
+           [] e.op = "Divide" -> LET a == ND(e.l) b == ND(e.r) IN <<a[1] + b[2], a[2] + b[1]>>
+           [] e.op = "Reciprocal" -> LET a == ND(e.a) IN <<a[2], a[1]>>
+           [] e.op = "NthPower" -> LET a == ND(e.a) IN <<e.k * a[1], e.k * a[2]>>
+IdS == {Q(-3,1), Q(-2,1), Q(-1,1), Q(0,1), Q(1,1), Q(2,1), Q(3,1), Q(1,2), Q(-1,2)}
+\* "na" (not in the fragment / too many variables), "differs" (both defined, different values: a counterexample),
+\* "identity" (proved for all points), "sampled" (agreeing, but not enough points for the degree)
+IdentityVerdict(a, b) ==
+   LET vs == Vars(a) \cup Vars(b) IN
+   IF ~(RationalFragment(a) /\ RationalFragment(b)) \/ Cardinality(vs) > 2 THEN "na"
+   ELSE LET na == ND(a) nb == ND(b)
+            D == Max2(na[1] + nb[2], nb[1] + na[2])
+            k == Cardinality(vs)
+            pts == [vs -> IdS]
+            cmp == TLCEval([p \in pts |-> LET x == Val(a,p) y == Val(b,p) IN
+                              IF IsQ(x) /\ IsQ(y) THEN (IF x = y THEN "eq" ELSE "ne") ELSE "skip"])
+            agree == Cardinality({p \in pts : cmp[p] = "eq"})
+        IN IF \E p \in pts : cmp[p] = "ne" THEN "differs"
+           ELSE IF agree > D * (IF k = 2 THEN 9 ELSE 1) THEN "identity" ELSE "sampled"
+
 \* polynomial fragment (C03, last sentence)
 PolyOps == {"Variable","Constant","Add","Multiply","Minus","Negation","NthPower"}
 RECURSIVE PolyFrag(_)
